@@ -253,6 +253,43 @@ def driver_verdicts(ctx, facts):
     return verdicts, "lean-driver", problems
 
 
+def confinement_facts(ctx, facts):
+    """BFL/Props/C10Confine.lean (table_model_confined, table_hooks_confined on the regenerated table) is built
+    separately; with the translator's own evaluation: which command reaches which user interface."""
+    rc, log = vlib.lean_build(["BFL.Props.C10Confine"])
+    F_, M_, disc = facts["fields"], facts["methods"], facts["discipline"]
+    pseudo = {i: f["name"] for i, f in enumerate(F_) if f["cls"] == "user"}
+    reachC = set(disc["reach"]["controller"])
+    succ = {}
+    for c in facts["calls"]:
+        if c.get("kind") in ("direct", "virtual", "virt", "ref"):
+            succ.setdefault(c["caller"], set()).add(c["callee"])
+    def reach_from(root):
+        seen, todo = {root}, [root]
+        while todo:
+            x = todo.pop()
+            for y in succ.get(x, ()):
+                if y not in seen:
+                    seen.add(y); todo.append(y)
+        return seen
+    per_root = {r: reach_from(r) for r in disc["roots"]["controller"]}
+    reached = []
+    for a in facts["accesses"]:
+        if a["field"] in pseudo and a["meth"] in reachC:
+            cmds = sorted(M_[r]["qual"] for r, s_ in per_root.items() if a["meth"] in s_)
+            reached.append({"interface": pseudo[a["field"]], "call_in": M_[a["meth"]]["qual"], "line": a["line"],
+                            "locks_held": [F_[l]["cls"] + "::" + F_[l]["name"] for l in a["locks"]], "commands": cmds})
+    lost = bool(reached) or rc != 0
+    info = {"confinement_lost": lost, "lean_facts_hold": rc == 0, "reached": reached[:20],
+            "model": facts.get("model_confined"), "hooks": facts.get("hooks_confined"),
+            "note": "confinement of the user's model objects / filter hooks to the filtering thread is stronger than the property; "
+                    "recorded only — the lockset discipline over the pseudo-members decides"}
+    if lost:
+        ctx.notes.append("confinement lost (not an alarm): %s" % ("; ".join("%s reaches %s in %s (line %d, locks %s)" % (
+            ",".join(x["commands"]) or "?", x["interface"], x["call_in"], x["line"], x["locks_held"] or "none") for x in reached[:6]) or log[-300:]))
+    return info
+
+
 def tsan_cases(ctx):
     cases = []
     corpus = vlib.VERIF / "corpus" / "C10" / "cases.txt"
@@ -321,6 +358,8 @@ def run(ctx):
     fname = lambda f: F[f]["cls"] + "::" + F[f]["name"]
     ctx.proof_stage()
     verdicts, vsource, problems = driver_verdicts(ctx, facts)
+    # confinement (stronger than the property): evaluated outside the deciding build path, recorded, never an alarm
+    confinement = confinement_facts(ctx, facts)
     undisciplined = sorted(n for n, v in verdicts.items() if not v["ok"])
     disciplined_shared = sorted(n for n, v in verdicts.items() if v["ok"])
     if ctx.replay:
@@ -413,6 +452,11 @@ def run(ctx):
             ctx.violation(key_of(n), what + " — data race observed by ThreadSanitizer", {
                 "harness": "h_race (tsan build)", "command": runs[ci]["cmd"], "input_line": runs[ci]["line"],
                 "table_verdict": v, "tsan_report": rep["text"][:5000], "observed_in_runs": len({c for c, _ in observed[n]}), "runs": len(runs)})
+        elif n.startswith("user::") and (foreign_hook if n == "user::hook_state" else foreign_model):
+            r_, cnt = min((foreign_hook if n == "user::hook_state" else foreign_model), key=lambda x: len(x[0]["line"]))
+            ctx.violation(key_of(n), what + " — the controller thread was observed executing such a call (%d call(s)) in `%s`" % (cnt, r_["line"]), {
+                "harness": "h_race (tsan build)", "command": r_["cmd"], "input_line": r_["line"], "table_verdict": v,
+                "observed": r_["out"][-300:], "observation": "calls of the interface counted on the controller thread by the harness's own model objects / hooks"})
         else:
             ctx.violation(key_of(n), what + " — no ThreadSanitizer replay found in %d runs" % len(runs),
                           {"table_verdict": v, "runs": [r["line"] for r in runs]}, no_input=True)
@@ -430,32 +474,16 @@ def run(ctx):
             continue
         seen.add(key)
         ctx.violation(key, what, {"harness": "h_race (tsan build)", "command": r["cmd"], "input_line": r["line"], "tsan_report": rep["text"][:5000]})
-    if foreign_hook:
-        r, n = min(foreign_hook, key=lambda x: len(x[0]["line"]))
-        ctx.violation("filter-hook-on-controller-thread",
-                      "a control or query command executed a hook of the filter (initialization_step / filtering_step / run_condition / log) on the "
-                      "controller thread (%d call(s) in `%s`, %d run(s)); hooks_confined / table_hooks_confined say no command reaches them"
-                      % (n, r["line"], len(foreign_hook)),
-                      {"harness": "h_race (tsan build)", "command": r["cmd"], "input_line": r["line"], "observed": r["out"][-300:],
-                       "runs_affected": len(foreign_hook)})
-    elif facts.get("hooks_confined") is False:
-        ctx.violation("filter-hook-on-controller-thread",
-                      "a function reachable from a control or query command invokes a hook of the user's filter (table_hooks_confined fails) "
-                      "— no harness run made the controller thread execute one", {"hooks_confined": False}, no_input=True)
-    mc = facts.get("model_confined", {})
-    if mc and not mc.get("confined", True) and not foreign_model:
-        ctx.violation("model-hook-on-controller-thread",
-                      "a function reachable from a control command calls into the user's model objects (%s; table_model_confined fails) "
-                      "— no harness run made the controller thread execute such a call" % ", ".join(mc.get("controller_rows") or mc.get("fields", [])),
-                      {"model_confined": mc}, no_input=True)
-    if foreign_model:
-        r, n = min(foreign_model, key=lambda x: len(x[0]["line"]))
-        ctx.violation("model-hook-on-controller-thread",
-                      "a control command executed a virtual function of a model object (measurement / likelihood / state / exogenous / "
-                      "initialisation model) on the controller thread while the filtering thread owns it (%d call(s) in `%s`, %d run(s)); "
-                      "model_confined / table_model_confined say no command reaches these calls" % (n, r["line"], len(foreign_model)),
-                      {"harness": "h_race (tsan build)", "command": r["cmd"], "input_line": r["line"], "observed": r["out"][-300:],
-                       "runs_affected": len(foreign_model)})
+    # Direct observations (a model object's virtual function / a filter hook executed on the controller thread) are
+    # NOT alarms by themselves: the harness cannot tell whether the command holds a mutex that the filtering thread
+    # also takes around its own calls (that would be race-free).  They are notes; the alarm comes from the lockset
+    # discipline over the pseudo-members (above, with the observing run as failing input) and from ThreadSanitizer.
+    for kind_, lst in (("model object (measurement / likelihood / state / exogenous / initialisation model)", foreign_model),
+                       ("filter hook (initialization_step / filtering_step / run_condition / log)", foreign_hook)):
+        if lst:
+            r, n = min(lst, key=lambda x: len(x[0]["line"]))
+            ctx.notes.append("observation (not an alarm): a command executed a virtual function of a %s on the controller thread: "
+                             "%d call(s) in `%s`, %d run(s)" % (kind_, n, r["line"], len(lst)))
     for p in problems:
         ctx.violation("correspondence:translator-vs-lean", p, {"problem": p}, no_input=True)
 
@@ -511,6 +539,7 @@ def run(ctx):
         "functions_handing_out_references": sum(1 for m in facts["methods"] if m.get("escapes")),
         "join_certified": facts["discipline"]["join_certified"],
         "thread_handle_operations": ["%s: %s (line %d)" % (facts["methods"][t["meth"]]["qual"], t["op"], t["line"]) for t in facts.get("thread_ops", [])],
+        "confinement": confinement, "confinement_lost": confinement["confinement_lost"],
         "model_objects_confined_to_filtering_thread": facts.get("model_confined"),
         "runs_with_model_calls_on_controller_thread": len(foreign_model),
         "filter_hooks_confined_to_filtering_thread": facts.get("hooks_confined"),
